@@ -40,6 +40,61 @@ class Obj(object):
         return 'Obj(%s)' % ', '.join('%s=%r' % kv for kv in sorted(self.__dict__.items()))
 
 
+class _Ambiguous(object):
+    def __bool__(self):
+        raise ValueError('The truth value of an element-wise comparison is ambiguous')
+
+    __nonzero__ = __bool__
+
+
+class Vector(object):
+    """Array-like value (as numpy arrays / pandas frames): comparisons are element-wise and their result has no truth
+    value; not hashable. Serialises and copies like any plain object. The harness compares it with same_vector()."""
+
+    def __init__(self, items=()):
+        self.items = list(items)
+
+    def __eq__(self, other):
+        return _Ambiguous()
+
+    def __ne__(self, other):
+        return _Ambiguous()
+
+    __hash__ = None
+
+    def __repr__(self):
+        return 'Vector(%r)' % (self.items,)
+
+
+def same_vector(a, b):
+    return type(a) is Vector and type(b) is Vector and a.items == b.items
+
+
+def has_vector(x):
+    if type(x) is Vector:
+        return True
+    if isinstance(x, dict):
+        return any(has_vector(v) for v in x.values())
+    if isinstance(x, (list, tuple)):
+        return any(has_vector(v) for v in x)
+    return False
+
+
+def deep_same(a, b):
+    """a == b and same type, for structures that may hold Vector values (which cannot be compared with ==)."""
+    if not (has_vector(a) or has_vector(b)):
+        return a == b and type(a) is type(b)
+    if type(a) is not type(b):
+        return False
+    if type(a) is Vector:
+        return same_vector(a, b)
+    if isinstance(a, dict):
+        return set(a) == set(b) and all(deep_same(a[k], b[k]) for k in a)
+    if isinstance(a, (list, tuple)):
+        return len(a) == len(b) and all(deep_same(x, y) for x, y in zip(a, b))
+    return a == b
+
+
 class Err(Exception):
     pass
 
@@ -95,6 +150,8 @@ def build(d, memo=None):
         return ERRS[d['v']]()
     if t == 'unencodable':
         return Unencodable()
+    if t == 'vector':
+        return Vector(build(d['v'], memo))
     if t == 'shared':
         if d['id'] not in memo:
             memo[d['id']] = build(d['v'], memo)
